@@ -223,7 +223,7 @@ class C19(Harness):
 
     def units(self, tier):
         us = []
-        for scen in ('schema', 'c1', 'c2', 'c1-file', 'stringio'):
+        for scen in ('schema', 'c1', 'c2', 'c1-file', 'stringio', 'schema-twice'):
             for kind in ('none', 'read', 'open', 'stream', 'datatype', 'section'):
                 us.append({'scenario': scen, 'kind': kind})
         return us
@@ -248,10 +248,25 @@ class C19(Harness):
         scen = unit['scenario']
         fired = None
         outcome = None
+        twice_schema = None
         with Tracker(plan) as tr:
             try:
                 if scen == 'schema':
                     ZConfig.loadSchema(os.path.join(d, 'schema.xml'))
+                elif scen == 'schema-twice':
+                    # ONE SchemaLoader serves two loads of the same URL: the first may fail at the
+                    # injected point, the second (a cache hit when the first succeeded) must close
+                    # what it opens and must yield the complete schema
+                    import ZConfig.loader
+                    sl = ZConfig.loader.SchemaLoader()
+                    first = None
+                    try:
+                        sl.loadURL(os.path.join(d, 'schema.xml'))
+                    except (Injected, OSError, ZConfig.ConfigurationError) as e:
+                        first = e
+                    twice_schema = sl.loadURL(os.path.join(d, 'schema.xml'))
+                    if first is not None:
+                        raise first
                 else:
                     # the schema itself is loaded inside the tracked region as well
                     schema = ZConfig.loadSchema(os.path.join(d, 'schema.xml'))
@@ -276,6 +291,13 @@ class C19(Harness):
             n, res_closed, streams_closed = tr.report()
         # a later clean load must behave as on a fresh schema
         later = self._clean(d)
+        if scen == 'schema-twice' and later[0] == 'ok' and twice_schema is not None:
+            # ... and so must a load against the schema the re-used loader handed out
+            try:
+                cfg, _ = ZConfig.loadConfig(twice_schema, os.path.join(d, 'c1', 'main.conf'))
+                later = ('ok', P.walk(cfg)[3][:3])
+            except Exception as e:
+                later = ('failed-on-reused-loader', type(e).__name__)
         return ('closed' if (res_closed and streams_closed) else 'LEAK', outcome, later)
 
     def _clean(self, d):
